@@ -9,8 +9,8 @@
 
   The `while` loop of `set_successors` is fuel-recursion (`findBase`); the fuel
   `value.len() + 2` always suffices (every owned cell lies below the current length, so `b = len`
-  conflicts with nothing): `none` from exhausted fuel never happens (validated per run; see
-  Props/C14 `first_fit` section).
+  conflicts with nothing): `none` from exhausted fuel never happens on a builder in its invariant
+  (Props/C14 `first_fit_terminates`, Proofs/CompactTable `findBase_spec`).
 -/
 import SmtModel.Model.Basic
 
